@@ -19,7 +19,9 @@ Step1 ==
     /\ LET e == Ev IN
        CASE e.ev = "Reset" -> Step(Empty, Empty, <<0, 0, 0>>, {}, {}, viols)
          [] e.ev = "DSender" -> Step(dg, Put(laddr, e.s, e.laddr), cur, issued, got, viols)
-         [] e.ev = "DSend" -> Step(Put(dg, <<e.s, e.k>>, [len |-> e.len, seen |-> 0]), laddr, cur, issued, got, viols)
+         \* (len: what is owed to the handler -- the datagram, or as much of it as the configured read buffer holds)
+         [] e.ev = "DSend" -> Step(Put(dg, <<e.s, e.k>>, [len |-> IF "cap" \in DOMAIN e /\ e.cap > 0 /\ e.len > e.cap THEN e.cap ELSE e.len, seen |-> 0]),
+                                   laddr, cur, issued, got, viols)
          [] e.ev = "Dgram" ->
               LET key == <<e.s, e.k>>
                   d == Get(dg, key, [len |-> -1, seen |-> 0])
